@@ -204,6 +204,18 @@ func (c *cenv) eval(x ast.Expr) Val {
 	case *ast.IndexExpr:
 		base := c.deref(c.eval(n.X))
 		idx := c.eval(n.Index)
+		if base.Typ == nil && strings.HasPrefix(base.Sort, "(Array ") {
+			// spec-level SMT array (world components such as bank): a[i]
+			parts := sexprSplit(base.Sort[1 : len(base.Sort)-1])
+			if len(parts) == 3 {
+				it := e.term(c.st(), idx)
+				r := Val{K: kTerm, Sort: parts[2], T: fmt.Sprintf("(select %s %s)", base.T, it)}
+				if parts[2] == sInt {
+					r.Typ = mathIntType()
+				}
+				return r
+			}
+		}
 		if _, ok := base.Typ.Underlying().(*types.Map); ok {
 			ms := e.sortOfT(base.Typ)
 			mp := base.Typ.Underlying().(*types.Map)
@@ -813,6 +825,27 @@ func (c *cenv) call(n *ast.CallExpr) Val {
 				cj = append(cj, tEq(e.readComp(c.post, v.World, comp), e.readComp(c.pre, v.World, comp)))
 			}
 			return termVal(boolT, sBool, tAnd(cj...))
+		case "errof", "first":
+			v := c.eval(n.Args[0])
+			if v.K == kTuple && len(v.Elems) > 0 {
+				if id.Name == "errof" {
+					return v.Elems[len(v.Elems)-1]
+				}
+				return v.Elems[0]
+			}
+			return v
+		case "min", "max":
+			a := c.eval(n.Args[0])
+			b := c.eval(n.Args[1])
+			at, bt := e.term(c.st(), a), e.term(c.st(), b)
+			r := a
+			r.K = kTerm
+			if id.Name == "min" {
+				r.T = tIte(tApp("<=", at, bt), at, bt)
+			} else {
+				r.T = tIte(tApp("<=", at, bt), bt, at)
+			}
+			return r
 		case "blocktime":
 			v := c.eval(n.Args[0])
 			return e.blockTime(c.st(), v)
